@@ -1,2 +1,174 @@
-(* Properties_C01.v -- placeholder, filled below *)
-From Amgcl Require Import Scalar Krylov.
+(* Properties_C01.v -- C01: a reported convergence is truthful (residual, iteration count).
+   Statements only; proofs in KrylovProofs.v.  Models: Krylov.v (cg, bicgstab, richardson,
+   gmres, fgmres; lgmres / bicgstabl / idrs are covered by the implementation-side oracle of
+   tools/props/C01.py only).
+   "any S"  : every Scalar record (IEEE floats with NaN included), A and P arbitrary functions.
+   "ring"   : commutative ring with decidable equality; A, P linear and length preserving.
+   [true_res nrm A P left f x] = nrm (f - A x)  (nrm (P (f - A x)) for left preconditioning);
+   nr = ||f|| (or 1 under ns_search) as computed by the prologue. *)
+From Amgcl Require Import Scalar QcInst Vec Kernels Krylov KrylovRef KrylovProofs.
+From Coq Require Import QArith Qcanon.
+Local Open Scope S_scope.
+Local Close Scope Q_scope.
+Local Close Scope Qc_scope.
+
+(* ---- A3 (any S): the iteration count never exceeds maxiter; the fuel of the model loops suffices ---- *)
+Theorem C01_cg_iterations_bounded (S : Scalar) (A P : vec S -> vec S) prm f x0 junk r w :
+  cg A P prm f x0 junk = (KOk r, w) -> k_it r <= p_maxiter prm /\ k_oof r = false.
+Proof. exact (cg_iters_le_maxiter A P prm f x0 junk r w). Qed.
+Print Assumptions C01_cg_iterations_bounded.
+
+Theorem C01_richardson_iterations_bounded (S : Scalar) (A P : vec S -> vec S) prm f x0 junk r w :
+  richardson A P prm f x0 junk = (KOk r, w) -> k_it r <= p_maxiter prm /\ k_oof r = false.
+Proof. exact (richardson_iters_le_maxiter A P prm f x0 junk r w). Qed.
+Print Assumptions C01_richardson_iterations_bounded.
+
+Theorem C01_bicgstab_iterations_bounded (S : Scalar) (A P : vec S -> vec S) prm f x0 junk r w :
+  bicgstab A P prm f x0 junk = (KOk r, w) -> k_it r <= p_maxiter prm /\ k_oof r = false.
+Proof. exact (bicgstab_iters_le_maxiter A P prm f x0 junk r w). Qed.
+Print Assumptions C01_bicgstab_iterations_bounded.
+
+Theorem C01_gmres_iterations_bounded (S : Scalar) (A P : vec S -> vec S) prm f x0 junk r w :
+  gmres A P prm f x0 junk = (KOk r, w) -> k_it r <= p_maxiter prm /\ k_oof r = false.
+Proof. exact (gmres_trivial_bounds A P prm f x0 junk r w). Qed.
+Print Assumptions C01_gmres_iterations_bounded.
+
+Theorem C01_fgmres_iterations_bounded (S : Scalar) (A P : vec S -> vec S) prm f x0 junk r w :
+  fgmres A P prm f x0 junk = (KOk r, w) -> k_it r <= p_maxiter prm /\ k_oof r = false.
+Proof. exact (fgmres_trivial_bounds A P prm f x0 junk r w). Qed.
+Print Assumptions C01_fgmres_iterations_bounded.
+
+(* ---- A2 (any S): Richardson, GMRES and FGMRES return the norm of a residual that is RECOMPUTED
+        from the returned x, on every exit path (converged, maxiter, restart boundary) ---- *)
+Theorem C01_richardson_residual_recomputed (S : Scalar) (A P : vec S -> vec S) prm f x0 junk nr r w :
+  k_prologue norm_a prm f = Go nr -> richardson A P prm f x0 junk = (KOk r, w) ->
+  k_res r = true_res norm_a A P false f (k_x r) / nr.
+Proof. exact (richardson_residual_truthful A P prm f x0 junk nr r w). Qed.
+Print Assumptions C01_richardson_residual_recomputed.
+
+Theorem C01_gmres_residual_recomputed (S : Scalar) (A P : vec S -> vec S) prm f x0 junk nr r w :
+  k_prologue norm_b prm f = Go nr -> gmres A P prm f x0 junk = (KOk r, w) ->
+  k_res r = true_res norm_b A P (p_left prm) f (k_x r) / nr.
+Proof. intros Hp H. exact (proj2 (proj2 (gmres_result_spec A P prm f x0 junk nr r w Hp H))). Qed.
+Print Assumptions C01_gmres_residual_recomputed.
+
+Theorem C01_fgmres_residual_recomputed (S : Scalar) (A P : vec S -> vec S) prm f x0 junk nr r w :
+  k_prologue norm_b prm f = Go nr -> fgmres A P prm f x0 junk = (KOk r, w) ->
+  k_res r = true_res norm_b A P false f (k_x r) / nr.
+Proof. intros Hp H. exact (proj2 (proj2 (fgmres_result_spec A P prm f x0 junk nr r w Hp H))). Qed.
+Print Assumptions C01_fgmres_residual_recomputed.
+
+(* ---- A1 (ring): the recursively updated vector of CG / BiCGStab IS the residual of the iterate ---- *)
+Section Ring.
+Variable S : Scalar.
+Hypothesis Srt : Sring S.
+Hypothesis Seqb : seqb_spec S.
+Variable n : nat.
+Variables A P : vec S -> vec S.
+Hypothesis A_len : forall v, length v = n -> length (A v) = n.
+Hypothesis P_len : forall v, length v = n -> length (P v) = n.
+Hypothesis A_lin : linear_on n A.
+
+(* CG: returned number = ||f - A x_returned|| / ||f||, and the carried r equals f - A x exactly *)
+Theorem C01_cg_residual_truthful prm f x0 junk nr r w :
+  length f = n -> length x0 = n -> k_prologue norm_a prm f = Go nr ->
+  cg A P prm f x0 junk = (KOk r, w) ->
+  k_res r = true_res norm_a A P false f (k_x r) / nr /\ cg_r w = k_residual f (A (k_x r)).
+Proof. exact (cg_residual_truthful Srt Seqb n A P A_len P_len A_lin prm f x0 junk nr r w). Qed.
+
+(* BiCGStab, both sides, both exits (after the first or the second half step); the preconditioned
+   residual for side = left.  Excluded: check_after with zero iterations made -- see the
+   refutation below. *)
+Hypothesis P_lin : linear_on n P.
+Theorem C01_bicgstab_residual_truthful prm f x0 junk nr r w :
+  length f = n -> length x0 = n -> k_prologue norm_a prm f = Go nr ->
+  bicgstab A P prm f x0 junk = (KOk r, w) ->
+  p_ca prm = false \/ k_it r <> 0 ->
+  k_res r = true_res norm_a A P (p_left prm) f (k_x r) / nr.
+Proof. exact (bicgstab_residual_truthful Srt Seqb n A P A_len P_len A_lin P_lin prm f x0 junk nr r w). Qed.
+End Ring.
+
+(* closed instances at the exact rationals *)
+Theorem C01_cg_residual_truthful_Qc n (A P : vec QcS -> vec QcS) prm f x0 junk nr r w :
+  (forall v, length v = n -> length (A v) = n) -> (forall v, length v = n -> length (P v) = n) ->
+  linear_on n A ->
+  length f = n -> length x0 = n -> k_prologue norm_a prm f = Go nr ->
+  cg A P prm f x0 junk = (KOk r, w) ->
+  k_res r = true_res norm_a A P false f (k_x r) / nr /\ cg_r w = k_residual f (A (k_x r)).
+Proof. intros HA HP HL. exact (C01_cg_residual_truthful QcS QcS_ring QcS_eqb n A P HA HP HL prm f x0 junk nr r w). Qed.
+Print Assumptions C01_cg_residual_truthful_Qc.
+
+Theorem C01_bicgstab_residual_truthful_Qc n (A P : vec QcS -> vec QcS) prm f x0 junk nr r w :
+  (forall v, length v = n -> length (A v) = n) -> (forall v, length v = n -> length (P v) = n) ->
+  linear_on n A -> linear_on n P ->
+  length f = n -> length x0 = n -> k_prologue norm_a prm f = Go nr ->
+  bicgstab A P prm f x0 junk = (KOk r, w) ->
+  p_ca prm = false \/ k_it r <> 0 ->
+  k_res r = true_res norm_a A P (p_left prm) f (k_x r) / nr.
+Proof. intros HA HP HL HL'. exact (C01_bicgstab_residual_truthful QcS QcS_ring QcS_eqb n A P HA HP HL HL' prm f x0 junk nr r w). Qed.
+Print Assumptions C01_bicgstab_residual_truthful_Qc.
+
+(* the hypotheses on A and P are satisfiable by non-trivial operators: diagonal matrices *)
+Example C01_hypotheses_satisfiable :
+  let d : vec QcS := [qc 2 1; qc 3 2; qc (-1) 4] in
+  (forall v, length v = 3 -> length (diag_op d v) = 3) /\ linear_on 3 (diag_op d).
+Proof.
+  split.
+  - intros v H. exact (diag_op_len [qc 2 1; qc 3 2; qc (-1) 4] v H).
+  - exact (diag_op_linear QcS_ring [qc 2 1; qc 3 2; qc (-1) 4]).
+Qed.
+
+(* ... and by the closures the correspondence check uses for A and for matrix preconditioners:
+   v |-> spmv 1 M v 0 zeros over a well-formed square CRS matrix *)
+Example C01_hypotheses_satisfiable_matrix :
+  let M : Crs.crs QcS := Crs.mkCrs 2 [[(0, qc 2 1); (1, qc (-1) 1)]; [(0, qc (-1) 2); (1, qc 2 1)]] in
+  (forall v, length v = 2 -> length (mat_op M v) = 2) /\ linear_on 2 (mat_op M).
+Proof.
+  split.
+  - intros v _. apply mat_op_len.
+  - apply (mat_op_linear QcS_ring QcS_eqb
+             (Crs.mkCrs 2 [[(0, qc 2 1); (1, qc (-1) 1)]; [(0, qc (-1) 2); (1, qc 2 1)]])); reflexivity.
+Qed.
+Theorem C01_matrix_operators_are_linear (M : Crs.crs QcS) :
+  Crs.wf M = true -> Crs.ncols M = Crs.nrows M ->
+  (forall v, length (mat_op M v) = Crs.nrows M) /\ linear_on (Crs.nrows M) (mat_op M).
+Proof. intros H1 H2. split; [intro v; apply mat_op_len | exact (mat_op_linear QcS_ring QcS_eqb M H1 H2)]. Qed.
+Print Assumptions C01_matrix_operators_are_linear.
+
+(* ---- where the literal property fails on the faithful model (replayed on the implementation by
+        the probe cases of tools/props/C01.py; known_findings.d/C01-*.json) ---- *)
+Definition idop : vec QcS -> vec QcS := fun v => v.
+Definition prm0 (maxiter : nat) (tol : QcS) (ca : bool) : @kprm QcS :=
+  mkPrm maxiter tol (qc 0 1) false ca 2 false (qc 1 1).
+Definition bs_junk0 : @bs_ws QcS := mkBsWs [] [] [] [] [] [] [].
+Definition cg_junk0 : @cg_ws QcS := mkCgWs [] [] [] [].
+
+(* FULL STATEMENT (false): for every prm, bicgstab returns ||f - A x|| / ||f||.
+   With check_after = true and an empty loop (here maxiter = 0) the placeholder 2*eps/||f|| is returned. *)
+Theorem C01_bicgstab_check_after_refuted :
+  exists prm f x0,
+    match bicgstab idop idop prm f x0 bs_junk0 with
+    | (KOk r, _) => k_it r = 0 /\ p_ca prm = true /\
+                    k_res r <> true_res norm_a idop idop (p_left prm) f (k_x r) / norm_a f
+    | _ => False
+    end.
+Proof.
+  exists (prm0 0 (qc 1 4) true), [qc 1 1], [qc 0 1].
+  vm_compute. repeat split. discriminate.
+Qed.
+Print Assumptions C01_bicgstab_check_after_refuted.
+
+(* FULL STATEMENT (false): the returned residual is ||f - A x_returned|| / ||f|| for every f.
+   A right-hand side that is tiny but not zero takes the trivial-solution exit: x := 0 and ||f||
+   itself is returned, although the relative residual of x = 0 is 1. *)
+Theorem C01_tiny_rhs_trivial_exit_refuted :
+  exists f x0,
+    match cg idop idop (prm0 3 (qc 1 1024) false) f x0 cg_junk0 with
+    | (KOk r, _) => k_res r <> true_res norm_a idop idop false f (k_x r) / norm_a f
+    | _ => False
+    end.
+Proof.
+  exists [Q2Qc (Qmake 1 (2 ^ 60))], [qc 1 1].
+  vm_compute. discriminate.
+Qed.
+Print Assumptions C01_tiny_rhs_trivial_exit_refuted.
